@@ -32,10 +32,31 @@ UNIT_CODE = [
 ]
 
 
-def make_content(client_or_group, spec):
+COUNTER_CODE = [
+    {'prim': 'parameter', 'args': [{'prim': 'or', 'args': [{'prim': 'int', 'annots': ['%decrement']}, {'prim': 'int', 'annots': ['%increment']}]}]},
+    {'prim': 'storage', 'args': [{'prim': 'int'}]},
+    {'prim': 'code', 'args': [[{'prim': 'UNPAIR'}, {'prim': 'IF_LEFT', 'args': [[{'prim': 'SWAP'}, {'prim': 'SUB'}], [{'prim': 'ADD'}]]},
+                               {'prim': 'NIL', 'args': [{'prim': 'operation'}]}, {'prim': 'PAIR'}]]},
+]
+KT_COUNTER = 'KT1Ha4yFVeyzw6KRAdkzq6TxDHB97KG4pZe8'
+
+
+def make_content(client_or_group, spec, client=None):
     """Append one content, described by `spec`, through the public ContentMixin API."""
     k = spec['kind']
     g = client_or_group
+    if k == 'contract_call':
+        # the high-level path: ContractInterface fetched from the node -> ContractCall -> transaction
+        ci = (client or g).contract(KT_COUNTER)
+        call = getattr(ci, spec.get('entrypoint', 'increment'))(spec.get('arg', 1))
+        if spec.get('amount'):
+            call = call.with_amount(spec['amount'])
+        if spec.get('raw_call'):
+            return call  # ContractCall object (for client.bulk / call.send)
+        opg = call.as_transaction()
+        if client is None or g is client:
+            return opg
+        return g.operation(opg.contents[0])
     if k == 'transaction':
         kw = {'destination': spec.get('dest', OTHERS[0]), 'amount': spec.get('amount', 0)}
         if spec.get('param_len') is not None:
@@ -83,6 +104,7 @@ class World:
         self.node.add_account(pkh, counter=cfg.get('counter0', 10), key=pk if verify else None)
         for o in OTHERS:
             self.node.add_account(o, counter=5)
+        self.node.contracts[KT_COUNTER] = {'code': COUNTER_CODE, 'storage': {'int': '0'}}
         self.node.bake(cfg.get('prebake', 2))
         self.tr = core.Transport(self.sim, self.node.handle, latency_ms=cfg.get('latency_ms', 0), max_requests=cfg.get('max_requests', 4000))
         self.step_faults = {}
@@ -175,11 +197,11 @@ class World:
             specs = st['contents']
             grp = None
             if st.get('via') == 'bulk':
-                parts = [make_content(self.client, s) for s in specs]
+                parts = [make_content(self.client, dict(s, raw_call=True) if s['kind'] == 'contract_call' else s, client=self.client) for s in specs]
                 grp = self.client.bulk(*parts)
             else:
                 for s in specs:
-                    grp = make_content(self.client if grp is None else grp, s)
+                    grp = make_content(self.client if grp is None else grp, s, client=self.client)
             self.groups[name] = {'base': grp, 'filled': None, 'signed': None, 'path': None, 'fills': 0, 'specs': specs, 'sim_plan': st.get('sim_plan'),
                                  'fee_by_client': True}
             return
@@ -188,6 +210,8 @@ class World:
             return  # the step that created the group was removed by the shrinker
         if g.get('sim_plan') is not None:
             node.sim_plan = g['sim_plan']
+        if op in ('fill', 'autofill', 'send'):
+            g['fill_kw'] = st.get('kw') or {}
         if op == 'fill':
             src = g['filled'] if (st.get('from') == 'filled' and g['filled'] is not None) else g['base']
             g['fills'] += 1
@@ -219,13 +243,13 @@ class World:
             if self.key_kind == 'tz4':
                 # OperationGroup.sign() cannot produce a generic BLS signature (C07/C23's subject);
                 # mirror send() with the harness attaching the curve-specific signature
-                filled = g['base'].autofill()
+                filled = g['base'].autofill(**(st.get('kw') or {}))
                 g['filled'] = filled
                 signed = self._sign(filled)
                 g['signed'] = signed
                 signed.inject(min_confirmations=minconf)
             else:
-                g['base'].send(min_confirmations=minconf)
+                g['base'].send(min_confirmations=minconf, **(st.get('kw') or {}))
             g['injected'] = True
         else:
             raise core.HarnessError(op)
